@@ -403,6 +403,17 @@ def exhaustive_cases(tier, seed):
                         yield {"kind": kind, "cfg": {"key_prefix": b"r:" if pos else b"", "default_noreply": False, "refuse": {keys[pos]: mode}},
                                "steps": pre + [{"op": "set_many", "values": vals, "noreply": nr}, {"op": "get_many", "keys": keys}, {"op": "add", "key": keys[pos], "value": b"a", "noreply": False},
                                                {"op": "set", "key": keys[pos], "value": b"again", "noreply": nr}, {"op": "gets", "key": keys[(pos + 1) % 3]}]}
+    # the noreply flag (per call and as the client's default) spelled as a non-bool: it counts by its truth value
+    for sp in (0, "", 0.0, 1, "no", 2, [0]):
+        for dn in (True, False, 1, 0, "yes", ""):
+            for kind in ("client", "pooled", "hash", "hash-pooled"):
+                for first in ([], [{"op": "set", "key": K, "value": b"5", "noreply": sp}]):
+                    yield {"kind": kind, "cfg": {"key_prefix": b"f:" if first else b"", "default_noreply": dn, "refuse": {"k2": "not-stored"}},
+                           "steps": first + [{"op": "add", "key": K, "value": b"a", "noreply": sp}, {"op": "replace", "key": "k1", "value": b"r", "noreply": sp},
+                                             {"op": "touch", "key": "k1", "expire": 5, "noreply": sp}, {"op": "delete", "key": "k1", "noreply": sp},
+                                             {"op": "set_many", "values": {"k1": b"1", "k2": b"2"}, "noreply": sp}, {"op": "incr", "key": K, "delta": 1, "noreply": sp},
+                                             {"op": "append", "key": "k2", "value": b"x"}, {"op": "delete_many", "keys": [K, "k2"]}, {"op": "prepend", "key": "k1", "value": b"x", "noreply": sp},
+                                             {"op": "get_many", "keys": [K, "k1", "k2"]}, {"op": "flush_all", "noreply": sp}, {"op": "get", "key": "k1"}]}
     if tier == "thorough":
         # every sequence of length 4 over the full 25-instance alphabet (390 625)
         for seq in itertools.product(range(len(ALPHA)), repeat=4):
@@ -428,7 +439,7 @@ def _history_strategy(tier, uni):
     key = st.sampled_from(KEYS + UKEYS) if uni else st.sampled_from(KEYS)
     value = st.sampled_from([b"v", b"", b"0", b"5", b"41", b"18446744073709551615", b"abc", b"12x", b"a\r\nb", b"END",
                              b"line\n", b"x\r", b"\r\n", b"\n", b"two\r\n\r\n"])
-    noreply = st.sampled_from([None, None, True, False])
+    noreply = st.sampled_from([None, None, True, False, True, False, 1, 0, "", "no", 2])
     expire = st.sampled_from([0, 0, 0, -1, 1, 2, 5, DAY30, DAY30 + 1, 1_700_000_003])
 
     def opt(d):
@@ -456,7 +467,7 @@ def _history_strategy(tier, uni):
         st.fixed_dictionaries({"op": st.just("delitem"), "key": key}),
         st.fixed_dictionaries({"op": st.just("advance"), "seconds": st.sampled_from([1, 1, 2, 3, 5, 10, DAY30])}))
     step = st.one_of(store, store, cas, read, read, arith, other)
-    cfg = st.fixed_dictionaries({"key_prefix": st.sampled_from([b"", b"", b"ns:", "sp."]), "default_noreply": st.booleans(), "allow_unicode_keys": st.just(uni),
+    cfg = st.fixed_dictionaries({"key_prefix": st.sampled_from([b"", b"", b"ns:", "sp."]), "default_noreply": st.sampled_from([True, False, True, False, 1, 0, "yes", ""]), "allow_unicode_keys": st.just(uni),
                                  "cas_start": st.sampled_from([0, 999999990, 2 ** 32 + 5, 2 ** 63 + 11, 2 ** 64 - 500]),
                                  "refuse": st.sampled_from([None, None, None, {"k2": "too-large"}, {"k1": "not-stored"}, {"k2": "oom"}, {"k1": "too-large", "k2": "not-stored"}])})
     return st.fixed_dictionaries({"kind": st.sampled_from(["client", "pooled", "hash", "hash-pooled"]), "cfg": cfg,
